@@ -3,7 +3,8 @@
 Domain   generated source files: functions with 1-6 parameters (positional-or-keyword and keyword-only; ten type shapes; with and
          without defaults; Optional without default), lists and nested dicts of functions, classes with __init__ and 1-3 methods whose
          parameter names overlap on purpose x valid value assignments rendered through positionals (required parameters), options,
-         --config strings at the level of the callable, and mixes.
+         --config strings at the level of the callable, one shared --config in front of the sub-command names with a section for every
+         component (the siblings' too), and mixes.
 Oracle   the call log written by the generated code itself: exactly one call of the selected component (and one __init__ for a class),
          every parameter typed-equal to the value given (converted to the declared type) or to the signature default, Optional without
          default -> None; auto_cli returns the callee's return value (a unique token); a missing required parameter is an error; the
@@ -92,14 +93,23 @@ def case_strategy():
             select = draw(st.sampled_from([["grp", "f1"], ["grp", "f2"], ["f3"]]))
         target = sigs[select[-1]]
         asg = draw(assignment(target, draw(st.sampled_from(["argv", "config"]))))
-        return {"kind": kind, "sigs": sigs, "select": select, "assign": asg, "omit_required": draw(st.sampled_from([False] * 7 + [True]))}
+        case = {"kind": kind, "sigs": sigs, "select": select, "assign": asg, "omit_required": draw(st.sampled_from([False] * 7 + [True]))}
+        if kind != "function" and draw(st.integers(0, 2)) == 0:
+            # one shared --config in front of the sub-command names, holding a section for every component (the siblings' too)
+            case["config_level"] = "top"
+            case["siblings"] = {n: draw(assignment(sg, "config")) for n, sg in sigs.items() if n != select[-1]}
+        return case
 
     def class_case(draw):
         init = draw(sig_strategy(4))
         methods = {m: draw(sig_strategy(3)) for m in draw(st.lists(st.sampled_from(["run", "fit", "show"]), min_size=1, max_size=3, unique=True))}
         m = draw(st.sampled_from(sorted(methods)))
-        return {"kind": "class", "sigs": {"__init__": init, **methods}, "select": [m], "init_assign": draw(assignment(init, "argv")),
+        case = {"kind": "class", "sigs": {"__init__": init, **methods}, "select": [m], "init_assign": draw(assignment(init, "argv")),
                 "assign": draw(assignment(methods[m], draw(st.sampled_from(["argv", "config"])))), "omit_required": draw(st.sampled_from([False] * 7 + [True]))}
+        if len(methods) > 1 and draw(st.integers(0, 2)) == 0:
+            case["config_level"] = "top"
+            case["siblings"] = {n: draw(assignment(sg, "config")) for n, sg in methods.items() if n != m}
+        return case
 
     return st.sampled_from(["function", "function", "list", "dict", "class", "class"]).flatmap(
         lambda k: st.composite(lambda draw: class_case(draw) if k == "class" else fn_case(draw, k))())
@@ -136,8 +146,8 @@ def raw(v):
     return v if isinstance(v, str) else json.dumps(v)
 
 
-def render(sig, asg, omit=None):
-    """-> argv tokens for one callable: [--config json] options [--] positionals"""
+def render(sig, asg, omit=None, split=False):
+    """-> argv tokens for one callable: [--config json] options [--] positionals  (split: the config part as a dict, the rest as tokens)"""
     given, how = dict(asg["given"]), asg["how"]
     if omit:
         given.pop(omit, None)
@@ -152,7 +162,27 @@ def render(sig, asg, omit=None):
             pos.append(raw(v))
         else:
             opts.append(f"--{n}={raw(v)}")
-    return (["--config", json.dumps(cfgd)] if cfgd else []) + opts + (["--"] if any(p.startswith("-") for p in pos) else []) + pos
+    rest = opts + (["--"] if any(p.startswith("-") for p in pos) else []) + pos
+    if split:
+        return cfgd, rest
+    return (["--config", json.dumps(cfgd)] if cfgd else []) + rest
+
+
+def render_top(case, sig, omit):
+    """one --config in front of everything with a section per component; the rest of the selected callable's values follow its name"""
+    kind, select = case["kind"], case["select"]
+    cfgd, rest = render(sig, case["assign"], omit, split=True)
+    sections = {n: render(case["sigs"][n], a, split=True)[0] for n, a in case["siblings"].items()}
+    sections[select[-1]] = cfgd
+    if kind == "dict":
+        top = {"grp": {n: sections[n] for n in ("f1", "f2")}, "f3": sections["f3"]}
+    else:
+        top = {n: sections[n] for n in case["sigs"] if n != "__init__"}
+    pre = []
+    if kind == "class":
+        init_cfg, pre = render(case["sigs"]["__init__"], case["init_assign"], split=True)
+        top = {**init_cfg, **top}
+    return ["--config", json.dumps(top)] + pre + list(select) + rest
 
 
 def expected_call(sig, asg):
@@ -198,6 +228,9 @@ def run_case(ctx, case):
         required = [p[0] for p in sig if is_required(p)]
         omit = required[0] if case.get("omit_required") and required else None
         argv = prefix + render(sig, case["assign"], omit)
+        if case.get("config_level") == "top":
+            argv = render_top(case, sig, omit)
+            ctx.cls("shared-top-level-config")
         out, err = io.StringIO(), io.StringIO()
         try:
             with contextlib.redirect_stdout(out), contextlib.redirect_stderr(err):
@@ -212,7 +245,7 @@ def run_case(ctx, case):
         ctx.cls("outcome:" + outcome.split(":")[0])
         nparams = len(sig)
         hows = set(case["assign"]["how"].values())
-        if (nparams >= 3 and "config" in hows and any(p[0] not in case["assign"]["given"] for p in sig)) or kind in ("class", "dict"):
+        if (nparams >= 3 and "config" in hows and any(p[0] not in case["assign"]["given"] for p in sig)) or kind in ("class", "dict") or case.get("config_level") == "top":
             ctx.mark_nontrivial()
         if omit:
             ctx.cls("required-parameter-omitted")
